@@ -81,7 +81,10 @@ def d1_recovery_bound(ctx):
             first_clamped = rhs if isinstance(c.ops[0], ast.GtE) else rhs + Poly.const(1) if isinstance(c.ops[0], ast.Gt) else None
             val = ev.ev(st.value)
             detail = f"{idx}[{src(c)}] = {src(st.value)}"
-            clamp_ok = first_clamped is not None and (first_clamped - T).const_value() is not None and (first_clamped - T).const_value() <= 0 and val == T - Poly.const(1)
+            mask_ok = first_clamped is not None and (first_clamped - T).const_value() is not None and (first_clamped - T).const_value() <= 0
+            clamp_ok = mask_ok and val == T - Poly.const(1)
+            if mask_ok and not clamp_ok:
+                detail += f"  [out-of-range indices are replaced by {val}, not by n_samples - 1: the reported recovery index is not the last sample]"
             anchor = st
     # form B: np.minimum / clip
     for d in du.defs:
@@ -95,7 +98,7 @@ def d1_recovery_bound(ctx):
             detail = src(d.stmt)
             anchor = d.stmt
     ctx.check(clamp_ok, fi, use[0], detail, "every recovery index is < n_samples when the waveform is read",
-              f"clamp `{detail}` lets an index equal to n_samples through: IndexError when the trough sits idx_from_trough samples before the end", key="clamp")
+              f"clamp `{detail}` does not map every index >= n_samples to n_samples - 1 (IndexError or a wrong recovery index when the trough sits within idx_from_trough samples of the end)", key="clamp")
     # the clamp precedes the read
     if clamp_ok:
         cfg = du.cfg
@@ -280,8 +283,8 @@ def d5_indexing(ctx):
 
 
 def run(ctx):
-    d1_recovery_bound(ctx)
-    d2_axis(ctx)
-    d3_degree(ctx)
-    d4_pre_post(ctx)
-    d5_indexing(ctx)
+    ctx.run(d1_recovery_bound)
+    ctx.run(d2_axis)
+    ctx.run(d3_degree)
+    ctx.run(d4_pre_post)
+    ctx.run(d5_indexing)
